@@ -302,6 +302,7 @@ def setup():
 
 # --------------------------------------------------------------------------- streams
 CURRENT_TIER = ["quick"]
+NPROC = max(2, min(16, os.cpu_count() or 4))
 STREAM_TIMEOUT = [900]      # seconds for one harness / driver invocation (raised for the thorough tier)
 
 
@@ -312,11 +313,30 @@ def harness_lines(args, timeout=None):
     return out
 
 
-def drive(req_text, timeout=None):
-    rc, out, err = sh([DRIVER, os.path.join(REPO, "data", "stdlib_complete.txt")], inp=req_text, timeout=timeout or STREAM_TIMEOUT[0], big_stack=True)
+def _drive_one(req_text, timeout):
+    rc, out, err = sh([DRIVER, os.path.join(REPO, "data", "stdlib_complete.txt")], inp=req_text, timeout=timeout, big_stack=True)
     if rc != 0:
         raise RuntimeError("driver failed rc=%s: %s" % (rc, err[-300:]))
-    return out.split("\n")
+    return out
+
+
+def drive(req_text, timeout=None):
+    """the native Lean driver answers one request per line and keeps no state between lines, so a large request file
+    is split into contiguous chunks answered by several driver processes; the answers are concatenated in order"""
+    timeout = timeout or STREAM_TIMEOUT[0]
+    lines = req_text.split("\n")
+    if len(lines) < 4000 and len(req_text) < 8_000_000:
+        return _drive_one(req_text, timeout).split("\n")
+    n = min(NPROC, max(2, len(lines) // 1500))
+    size = (len(lines) + n - 1) // n
+    chunks = ["\n".join(lines[i:i + size]) + "\n" for i in range(0, len(lines), size)]
+    from concurrent.futures import ThreadPoolExecutor
+    with ThreadPoolExecutor(max_workers=n) as ex:
+        outs = list(ex.map(lambda c: _drive_one(c, timeout), chunks))
+    res = []
+    for o in outs:
+        res.extend(l for l in o.split("\n") if l != "")
+    return res
 
 
 def toks(line):
@@ -380,7 +400,14 @@ def run_probe(depth, deep=0):
             return d["n"], d["mism"]
         except Exception:
             pass
-    req = harness_lines(["probe", "--depth", str(depth), "--deep", str(deep)])
+    if deep > 0:
+        # the large enumeration is produced by several harness processes, each a residue class of the state list
+        from concurrent.futures import ThreadPoolExecutor
+        with ThreadPoolExecutor(max_workers=NPROC) as ex:
+            parts = list(ex.map(lambda i: harness_lines(["probe", "--depth", str(depth), "--deep", str(deep), "--shard", "%d/%d" % (i, NPROC)]), range(NPROC)))
+        req = "".join(parts)
+    else:
+        req = harness_lines(["probe", "--depth", str(depth), "--deep", str(deep)])
     n = req.count("\n")
     outs = [l for l in drive(req) if l.startswith("probe ")]
     mism = [l for l in outs if not l.startswith("probe ok")]
